@@ -101,6 +101,10 @@ func runC06(c *core.Ctx) {
 			m.Options = rm.Mapping{Pairs: []rm.Pair{{K: []byte("a"), V: []byte{}}}}
 		case 3:
 			m.Options = gen.Mapping(r, 40)
+		case 4:
+			// boundary timestamps: the epoch itself (the all-zero Date), one millisecond after it
+			m.Published = uint64(i/8) % 2
+			sh["published"] = int(m.Published)
 		}
 		for j := range m.Addrs {
 			if len(m.Addrs[j].Style) == 0 {
